@@ -23,10 +23,21 @@ func VerifH_C12_Uses() {
 	augment := vrt.Choice("augment-inside-uses", 4) // 0 none, 1 a leaf, 2 a container holding a uses, 3 a uses directly
 	guard := vrt.Choice("uses-property", 3) // 0 none, 1 if-feature, 2 status deprecated
 	clash := vrt.Bool("clashing-sibling")
+	if vrt.Param("lite", 0) == 1 {
+		// quick tier: half of the placements and three of the five refinements
+		vrt.Assume(where == 1 || where == 3)
+		vrt.Assume(refine == 0 || refine == 1 || refine == 3)
+	}
 
+	// a grouping node guarded by a feature of the DEFINING module that is spelled like the
+	// feature of the using module on the uses ("if-feature f" means lib:f there, app:f here)
+	gguard := cross && vrt.Bool("grouping-leaf-guarded-by-like-named-feature")
 	// ---- the grouping bodies
 	inner := "leaf il { type string; } "
 	outerOwn := "leaf ol { type string; } container gc { leaf gcl { type string; } } "
+	if gguard {
+		outerOwn = "leaf ol { if-feature f; type string; } container gc { leaf gcl { type string; } } "
+	}
 	gtext := "grouping inner2 { leaf i2 { type string; } } grouping inner { " + inner + "} grouping outer { " + outerOwn
 	if nested {
 		gtext += "uses inner; "
@@ -69,6 +80,9 @@ func VerifH_C12_Uses() {
 
 	// ---- the same, expanded in place
 	ol := "leaf ol { type string;" + guardText
+	if gguard {
+		ol = "leaf ol { if-feature lib:f; type string;" + guardText
+	}
 	switch refine {
 	case 1:
 		ol += " default 'dv';"
@@ -125,7 +139,7 @@ func VerifH_C12_Uses() {
 	inlined := map[string]string{}
 	switch {
 	case cross:
-		written["lib"] = "module lib { namespace 'urn:lib'; prefix lib; " + gtext + "}"
+		written["lib"] = "module lib { namespace 'urn:lib'; prefix lib; feature f; " + gtext + "}"
 		inlined["lib"] = written["lib"]
 		written["app"] = appHead + wrap(uses) + "}"
 	case inSub:
@@ -138,6 +152,12 @@ func VerifH_C12_Uses() {
 
 	vrt.Reach("c12.uses.where" + strconv.Itoa(where))
 	feats := featSet{"app:f": true}
+	olPresent := true
+	if gguard {
+		appF, libF := vrt.Bool("app:f"), vrt.Bool("lib:f")
+		feats = featSet{"app:f": appF, "lib:f": libF}
+		olPresent = libF && (guard != 1 || appF)
+	}
 	got, err1 := compileTexts(written, feats, nil)
 	want, err2 := compileTexts(inlined, feats, nil)
 	if err1 != nil {
@@ -147,7 +167,7 @@ func VerifH_C12_Uses() {
 		vrt.Observe("inlined-error", err2.Error())
 	}
 	vrt.Assert((err1 == nil) == (err2 == nil), "c12.uses.same-verdict-as-inlined")
-	vrt.Assert((err1 != nil) == clash, "c12.uses.name-clash-rejected")
+	vrt.Assert((err1 != nil) == (clash && olPresent), "c12.uses.name-clash-rejected")
 	if err1 != nil || err2 != nil {
 		return
 	}
